@@ -252,12 +252,18 @@ def run_driver(exe, args, stdin=None, timeout=1800, env=None):
     e.setdefault("ASAN_OPTIONS", "detect_leaks=0:abort_on_error=0")
     if env: e.update(env)
     t0 = time.time()
-    try:
-        p = subprocess.run([exe] + [str(a) for a in args], input=stdin, stdout=subprocess.PIPE,
-                           stderr=subprocess.PIPE, timeout=timeout, env=e)
-    except subprocess.TimeoutExpired:
-        raise Infra("driver %s timed out after %ds" % (os.path.basename(exe), timeout))
-    return p.returncode, p.stdout.decode(errors="replace"), p.stderr.decode(errors="replace"), time.time() - t0
+    import tempfile
+    # stderr goes to a file and only its tail is read: a driver that loops on an error message must not exhaust memory
+    with tempfile.TemporaryFile(dir=OUT if os.path.isdir(OUT) else None) as ef:
+        try:
+            p = subprocess.run([exe] + [str(a) for a in args], input=stdin, stdout=subprocess.PIPE,
+                               stderr=ef, timeout=timeout, env=e)
+        except subprocess.TimeoutExpired:
+            raise Infra("driver %s timed out after %ds" % (os.path.basename(exe), timeout))
+        size = ef.seek(0, 2)
+        ef.seek(max(0, size - (4 << 20)))
+        se = ef.read().decode(errors="replace")
+    return p.returncode, p.stdout.decode(errors="replace"), se, time.time() - t0
 
 def write_ndjson(path, items):
     os.makedirs(os.path.dirname(path), exist_ok=True)
